@@ -219,7 +219,7 @@ Proof.
   - destruct (anchor_eqb (anc g) lrs); exfalso; eapply resume_not_free; eauto.
 Qed.
 
-(* ------------------------------------------------------------------ Part C: F15 *)
+(* ------------------------------------------------------------------ Part C: the former F15 witness *)
 (* the complete witness schedule: thread 2 prepares the contents alone, threads 0 and 1 run
    [aba_sched], thread 3 drains alone *)
 Definition aba_full_sched : list (nat * unit) :=
@@ -227,21 +227,55 @@ Definition aba_full_sched : list (nat * unit) :=
 
 Definition count_occ_N (x : N) (l : list N) : nat := length (filter (N.eqb x) l).
 
-Lemma aba_witness_facts :
+(* On the repaired code (link tags continue across reuse) the former F15 schedule is harmless:
+   A's stalled link CAS FAILS against the re-created node, every thread finishes, the drain
+   gets 100,5,6 and then "empty", 4 and 6 are each delivered exactly once. *)
+Lemma aba_witness_immune :
   let c := run dq_tstep aba_full_sched (dq_init aba_k, dq_locals aba_progs) in
   let g := fst c in
-  (* every thread has finished all its operations *)
   (forall t, (t < 4)%nat -> dq_done (snd c t) = true) /\
-  (* the deque reports empty: the last two pops of the drain returned "empty" *)
-  al (anc g) = 0 /\ dq_results 3 (dlog g) = [Some 100; Some 5; Some 4; None; None] /\
-  (* 4 was delivered twice, 6 was pushed and is lost *)
-  count_occ_N 4 (pushed_vals (dlog g)) = 1%nat /\ count_occ_N 4 (popped_vals (dlog g)) = 2%nat /\
-  count_occ_N 6 (pushed_vals (dlog g)) = 1%nat /\ count_occ_N 6 (popped_vals (dlog g)) = 0%nat /\
-  (* and the ghost flag says why *)
-  aba g = true.
+  al (anc g) = 0 /\ dq_results 3 (dlog g) = [Some 100; Some 5; Some 6; None; None] /\
+  count_occ_N 4 (pushed_vals (dlog g)) = 1%nat /\ count_occ_N 4 (popped_vals (dlog g)) = 1%nat /\
+  count_occ_N 6 (pushed_vals (dlog g)) = 1%nat /\ count_occ_N 6 (popped_vals (dlog g)) = 1%nat /\
+  aba g = false.
 Proof.
   vm_compute. repeat split; try reflexivity.
   intros t H. do 4 (destruct t as [|t]; [reflexivity|]). exfalso. lia.
+Qed.
+
+Definition aba2_full_sched : list (nat * unit) :=
+  solo 2 100 ++ map (fun t => (t, tt)) aba2_sched ++ solo 3 60.
+
+Lemma aba2_witness_immune :
+  let c := run dq_tstep aba2_full_sched (dq_init aba_k, dq_locals aba2_progs) in
+  let g := fst c in
+  (forall t, (t < 4)%nat -> dq_done (snd c t) = true) /\
+  al (anc g) = 0 /\ dq_results 3 (dlog g) = [Some 5; Some 7; None; None; None] /\
+  dq_results 1 (dlog g) = [Some 4; Some 3; Some 1; None; None; Some 50; Some 51; Some 6; None] /\
+  perm_b (popped_vals (dlog g)) (pushed_vals (dlog g)) = true /\
+  aba g = false.
+Proof.
+  vm_compute. repeat split; try reflexivity.
+  intros t H. do 4 (destruct t as [|t]; [reflexivity|]). exfalso. lia.
+Qed.
+
+Definition aba3_full_sched : list (nat * unit) := solo 2 60 ++ map (fun t => (t, tt)) aba3_sched ++ solo 3 60.
+Definition aba4_full_sched : list (nat * unit) := solo 2 100 ++ map (fun t => (t, tt)) aba4_sched ++ solo 3 60.
+
+Lemma aba_mirror_witnesses_immune :
+  let c1 := run dq_tstep aba3_full_sched (dq_init aba_k, dq_locals aba3_progs) in
+  let c2 := run dq_tstep aba4_full_sched (dq_init aba_k, dq_locals aba4_progs) in
+  (forall t, (t < 4)%nat -> dq_done (snd c1 t) = true) /\ (forall t, (t < 4)%nat -> dq_done (snd c2 t) = true) /\
+  dq_results 0 (dlog (fst c1)) = [None; Some 100; Some 5; Some 6] /\
+  dq_results 0 (dlog (fst c2)) = [None; Some 5; Some 7] /\
+  dq_results 3 (dlog (fst c1)) = [None; None; None; None; None] /\
+  dq_results 3 (dlog (fst c2)) = [None; None; None; None; None] /\
+  perm_b (popped_vals (dlog (fst c1))) (pushed_vals (dlog (fst c1))) = true /\
+  perm_b (popped_vals (dlog (fst c2))) (pushed_vals (dlog (fst c2))) = true /\
+  aba (fst c1) = false /\ aba (fst c2) = false.
+Proof.
+  vm_compute. repeat split; try reflexivity;
+    (intros t H; do 4 (destruct t as [|t]; [reflexivity|]); exfalso; lia).
 Qed.
 
 (* ------------------------------------------------------------------ Part D: one thread *)
@@ -509,23 +543,24 @@ Proof.
         rewrite in_app_iff. right. exact Hx. }
     assert (Nca : forall x, In x c' -> x <> a).
     { intros x Hx ->. cbn [app] in H6. inversion H6 as [|? ? Hnin _]. apply Hnin. rewrite in_app_iff. left. exact Hx. }
-    set (nd0 := {| nleft := null_link; nright := null_link; ndata := v |}).
+    set (nd0 := {| nleft := {| lptr := 0; ltag := ltag (nleft (heap g1 n)) + 1 |};
+                   nright := {| lptr := 0; ltag := ltag (nright (heap g1 n)) + 1 |}; ndata := v |}).
     set (des := set_aend s (anc g) n (push_status s) (atag (anc g) + 1)).
     assert (Ed : aend s des = n) by (unfold des; apply aend_set_aend).
     (* the common prefix: alloc, init, load, store, anchor CAS, link load, check *)
     assert (PRE : forall m z,
       siter t m (dq_log (set_anc (set_heap (set_heap g1 (hupd (heap g1) n nd0))
-                                   (hupd (hupd (heap g1) n nd0) n (set_inward s nd0 {| lptr := a; ltag := 0 |}))) des)
+                                   (hupd (hupd (heap g1) n nd0) n (set_inward s nd0 {| lptr := a; ltag := ltag (inward s nd0) + 1 |}))) des)
                         t (Push s v) None,
-                 {| dtodo := Push s v :: rest; dpc := S3 KDone s des {| lptr := a; ltag := 0 |} |}) = z ->
+                 {| dtodo := Push s v :: rest; dpc := S3 KDone s des {| lptr := a; ltag := ltag (inward s nd0) + 1 |} |}) = z ->
       siter t (7 + m) (g, mkl (Push s v :: rest) DIdle) = z).
     { intros m z Hz. cbn [Nat.add].
       stp. rewrite EA. stp. stp. unfold push_load. proj. rewrite A1, H2, Na0, H1.
       stp. proj. rewrite hupd_same, H2. stp. proj. rewrite A1, anchor_eqb_refl. unfold cur_op. cbn [dtodo hd].
       stp. fold des. rewrite Ed, Nn0. proj. rewrite hupd_same, inward_set_inward.
       stp. proj. rewrite anchor_eqb_refl. exact Hz. }
-    set (h3 := hupd (hupd (heap g1) n nd0) n (set_inward s nd0 {| lptr := a; ltag := 0 |})) in PRE.
-    assert (h3n : h3 n = set_inward s nd0 {| lptr := a; ltag := 0 |}) by (unfold h3; apply hupd_same).
+    set (h3 := hupd (hupd (heap g1) n nd0) n (set_inward s nd0 {| lptr := a; ltag := ltag (inward s nd0) + 1 |})) in PRE.
+    assert (h3n : h3 n = set_inward s nd0 {| lptr := a; ltag := ltag (inward s nd0) + 1 |}) by (unfold h3; apply hupd_same).
     assert (h3o : forall x, x <> n -> h3 x = heap g x).
     { intros x Hx. unfold h3. rewrite !hupd_other by exact Hx. apply A5. exact Hx. }
     destruct (lptr (outward s (heap g a)) =? n) eqn:EL.
@@ -819,7 +854,7 @@ Proof.
   apply contents_of_inv with (fl := fl). exact HI.
 Qed.
 
-(* ---- the full concurrent statement and its refutation ---- *)
+(* ---- the full concurrent statement (proved in Proofs/DequeAbaLin.v) ---- *)
 Definition deque_exactly_once_all_schedules : Prop :=
   forall k progs sched,
     let c := run dq_tstep sched (dq_init k, dq_locals progs) in
@@ -828,12 +863,3 @@ Definition deque_exactly_once_all_schedules : Prop :=
     (al (anc (fst c)) = 0 -> (forall t, dq_done (snd c t) = true) ->
      forall v, count_occ_N v (popped_vals lg) = count_occ_N v (pushed_vals lg)).
 
-Lemma deque_aba_refuted_lemma : ~ deque_exactly_once_all_schedules.
-Proof.
-  intros H. specialize (H aba_k aba_progs aba_full_sched). cbv zeta in H. destruct H as [H _].
-  specialize (H 4). pose proof aba_witness_facts as W. cbv zeta in W.
-  destruct W as (_ & _ & _ & W1 & W2 & _).
-  change (run dq_tstep aba_full_sched (dq_init aba_k, dq_locals aba_progs)) with
-         (run dq_tstep aba_full_sched (dq_init aba_k, dq_locals aba_progs)) in H.
-  rewrite W1, W2 in H. lia.
-Qed.
